@@ -142,6 +142,25 @@ def run(res, tier, seed):
         if found >= 4:
             break
 
+    # --- RunExpr, the second entry point that compiles text: same gating as Run
+    stmt_progs = ["i = 0; while i < 3 { i = i + 1 }; i", "x = 1; if x { x = 5 }; x", "func g() { return 7 }; y = g(); y", "x = 2; while x < 9 { x = x * 2 }; x",
+                  "if 1 { 2 } else { 3 }", "`{% if 1 { 2 } %}`", "`{% i=0; while i<2 { i=i+1 }; i %}`", "b2", "3a8", "f", "2c5", "p", "b", "5a10k3", "1|2", "3d", "d", "1+2", "x = 5; x + 1"]
+    rx_inputs = [(p.encode(), [rnd.random() < 0.5 for _ in range(7)]) for p in stmt_progs for _ in range(6)] + \
+                [(b, fl) for (b, fl) in inputs[: (300 if tier == "quick" else 3000)]]
+    import base64 as _b64
+    rx_rows, _ = common.run_harness(["c16-runexpr"], stdin="\n".join(json.dumps({"b64": _b64.b64encode(b).decode(), "flags": fl}) for b, fl in rx_inputs) + "\n",
+                                    timeout=900)
+    rx_bad = 0
+    for (b, fl), r in zip(rx_inputs, rx_rows):
+        if r.get("run_ok") and r.get("expr_ok") and r["run_str"] != r["expr_str"] and "{" not in r["run_str"] + r["expr_str"]:
+            rx_bad += 1
+            if rx_bad <= 2:
+                res.violation({"what": "RunExpr evaluates text differently from Run under the same syntax flags (what the flags disable for Run must be disabled "
+                                       "for RunExpr too)", "input": b.decode("utf-8", "replace"), "input_hex": b.hex(), "flags": fl,
+                               "Run": r["run_str"], "RunExpr": r["expr_str"], "Run_rest": r.get("run_rest")})
+                found += 1
+    res.cov["runexpr_vs_run"] = {"inputs": len(rx_inputs), "both_evaluated": sum(1 for r in rx_rows if r.get("run_ok") and r.get("expr_ok")), "disagreements": rx_bad}
+
     broken = None
     try:
         if stats["untranslated"]:
